@@ -353,8 +353,13 @@ func Search(o SearchOpts) (int, int64) {
 			// bytes (different shape of the last accepted checkpoint).
 			if len(rec.paths) < o.Reps && contains(next, s.key) {
 				last := s.path[len(s.path)-1]
-				first := rec.paths[0][len(rec.paths[0])-1]
-				if string(last.CP) != string(first.CP) {
+				fresh := true
+				for _, p := range rec.paths {
+					if string(p[len(p)-1].CP) == string(last.CP) {
+						fresh = false
+					}
+				}
+				if fresh {
 					rec.paths = append(rec.paths, s.path)
 				}
 			}
